@@ -41,7 +41,8 @@ RULE = ('tolerances 1e-4..1e-13 (each basis/cloud gets one, all ten are used); b
         'bounded-surface G2 record.  distinct = distinct protocol lines; non-trivial = the tolerance decides the result '
         '(parameter/point within 2*tol of a knot/stored key), a nest that raises or assigns, a call that ran.')
 REQUIRED_TAGS = ['snap:within', 'snap:beyond', 'eval:within', 'eval:outside-end-within', 'validate:outside-end-within',
-                 'validate:outside-end-beyond', 'continuity:within', 'continuity:beyond', 'periodic', 'open',
+                 'validate:outside-end-beyond', 'continuity:within', 'continuity:beyond', 'continuity:outside-end-within',
+                 'continuity:outside-end-beyond', 'periodic', 'open',
                  'vd:rtol=0', 'vd:rtol>0', 'vd:merge', 'vd:distinct', 'nest:raise-in-with', 'nest:depth>=2',
                  'monitor:g2-read', 'greville', 'tol=1e-04', 'tol=1e-13', 'obj:within-outside-end', 'obj:pardim=2',
                  'orient:close', 'orient:far']
@@ -1204,10 +1205,33 @@ def _oracle_validate(sp, s):
 def _oracle_continuity(sp, s):
     bs, t, tol = s['basis'], s['t'], s['tol']
     info = gen.basis_info(bs)
-    if not (info['start'] <= t <= info['end']):
-        return []      # the property speaks about in-domain parameters
     knot, m = _near_knot(bs, t, tol)
     b = gen.mk_basis(sp, bs)
+    if not (info['start'] <= t <= info['end']):
+        if info['k'] >= 0:
+            return []      # periodic: wrapped into the period (C08)
+        # a parameter beyond an end of a non-periodic basis: honoured like everywhere else in this function -- strictly
+        # within the tolerance of the end knot it is that knot (p - m - 1), strictly beyond the tolerance it is out of
+        # range (ValueError); since the fix of C12 periodic-rounded-ghost-knots-out-of-range / C14 loft-periodic-rounded-...
+        end = info['start'] if t < info['start'] else info['end']
+        d = abs(F(t) - F(end))
+        with _tol(sp, knot_tolerance=tol):
+            try:
+                got = b.continuity(t)
+            except ValueError:
+                got = 'ValueError'
+            except Exception as e:  # noqa: BLE001
+                return ['tol=%g: continuity(%r) raised %s beyond the end %r' % (tol, t, exc_kind(e), end)]
+        if d < F(tol):
+            mend = sum(1 for y in bs['knots'] if y == end)
+            if got == 'ValueError':
+                return ['tol=%g: continuity(%r) raised ValueError although the parameter is within the tolerance of the end knot %r' % (tol, t, end)]
+            if np.isinf(got) or int(got) != info['p'] - 1 - mend:
+                return ['tol=%g: continuity(%r) = %r, expected %d (end knot %r of multiplicity %d within the tolerance)' % (
+                    tol, t, got, info['p'] - 1 - mend, end, mend)]
+        elif d > F(tol) and got != 'ValueError':
+            return ['tol=%g: continuity(%r) = %r for a parameter more than the tolerance beyond the end %r (expected ValueError)' % (tol, t, got, end)]
+        return []
     with _tol(sp, knot_tolerance=tol):
         try:
             got = b.continuity(t)
